@@ -239,7 +239,7 @@ impl<'a, N: Normalizer> Html5Serializer<'a, N> {
                 let element_name = self.xot.element(node).unwrap().name();
                 // we don't want to output non-empty prefixes unless the
                 // element has an attribute with the same prefix
-                if namespace_id == &self.xot.xml_namespace()
+                if (*prefix_id == self.xot.xml_prefix() && namespace_id == &self.xot.xml_namespace())
                     || (*prefix_id == self.xot.empty_prefix()
                         && self.xot.namespace_for_name(element_name) != *namespace_id)
                     || (*prefix_id != self.xot.empty_prefix()
@@ -259,6 +259,8 @@ impl<'a, N: Normalizer> Html5Serializer<'a, N> {
                 }
 
                 let namespace = self.xot.namespace_str(*namespace_id);
+                // the URI is written as an attribute value
+                let namespace = serialize_attribute(namespace.into(), &self.normalizer);
                 if *prefix_id == self.xot.empty_prefix_id {
                     OutputToken {
                         space: true,
